@@ -11,8 +11,12 @@ from harness.core import (Verdict, tlc_model, tlc_judge, run_driver, run_tlc, se
 
 ATOMS = ["*", "a", "ab", "zz", "b-c", "a:1", "a:2", "a:*", "*:1", "*:2", "a*", "a*:*",
          "*:1.0*", "*b*", "b-*:*", "*-*", "a:1.0-rc.1", "ab:1.0+b", "a:", ":1", "*:*", "a:1*", "**"]
+# SQLite's other glob characters (not documented for specifiers, but accepted)
+ATOMS += ["a?", "a?:1", "?:1", "a:?", "a[b]:1", "a[b]:*", "[ab]*:*", "a:[12]", "a:[^1]", "a?:*", "??:1.0+b",
+          "a:1.0?rc.1", "b?c:2", "[^a]*:*"]
 LISTS = ["a:1 ab", "a ab:*", "zz a", "a:* a", "*:2 zz", " a  ab ", "a b-c zz", "ab a*",
-         "a:2 a:1 a", "zz yy", " ", "* zz", "b-c a", "a:1.0-rc.1 ab:1", "*:1 *:2", "ab:* a"]
+         "a:2 a:1 a", "zz yy", " ", "* zz", "b-c a", "a:1.0-rc.1 ab:1", "*:1 *:2", "ab:* a",
+         "a:1 a?:1", "a:? ab", "zz a[b]:*"]
 LANGS = ["~", "en", "fr", "de"]
 REMOVES = ["a", "ab", "a:*", "*:1", "a ab:*", "zz", "*", "a:1 ab", "b-*:*", "ab a*"]
 
@@ -20,7 +24,9 @@ REMOVES = ["a", "ab", "a:*", "*:1", "a ab:*", "zz", "*", "a:1 ab", "b-*:*", "ab 
 def c08(tier: str) -> int:
     v = Verdict('C08', tier)
     thorough = tier == 'thorough'
-    v.assumptions = ['only the documented "*" globs are generated (no "?" or "[...]")',
+    v.assumptions = ['"?" and "[...]" patterns (SQLite GLOB, undocumented for specifiers) are asked too; a pattern '
+                     'without a star selects one lexicon, the most recently added match, as the code does; '
+                     'character ranges are not generated',
                      'every id has one language, so "most recent" and "language" do not interact',
                      'results are compared as sets of id:version']
     v.add_model('MC_Select (orders of addition x specifiers x languages)',
